@@ -1,5 +1,6 @@
 import ActixNet.Model.Srv
 import ActixNet.Model.Avail
+import ActixNet.Model.CounterRace
 import Driver.Util
 /-! Engine `srv`: line protocol for the accept-thread model (`ActixNet.Srv`) and the server kernels. -/
 namespace Driver.Srv
@@ -178,6 +179,9 @@ def step (st : State) (line : String) : State × String :=
   | ["k-dec", v, l] => match v.toNat?, l.toNat? with
     | some v, some l => (st, s!"{bitStr (Src.wcDecCrossed v l)} {v - 1}")
     | _, _ => (st, "bad-op")
+  | ["k-race", v, l, n] => match v.toNat?, l.toNat?, n.toNat? with
+    | some v, some _, some n => if v > n && n ≤ 4000000 then (st, toString (Counter.race v n)) else (st, "bad-op")
+    | _, _, _ => (st, "bad-op")
   | ["k-total", v] => match v.toNat? with
     | some v => (st, toString (Src.wcTotal v)) | none => (st, "bad-op")
   | ["k-offset", i] => match i.toNat? with
